@@ -110,7 +110,14 @@ def gen_curve(rng, g, n_cases):
         cl = {"scalar:" + kc}
         if t < 4:
             R = g.mulgen(k)
-            lines = [T + "mulgen " + g.sc(k, rng)]
+            if rng.randrange(3) == 0:
+                # in-place generator multiplication on a receiver that already holds some point (to be ignored)
+                Pold = g.rand_point(rng)
+                dold = (g.desc(Pold, rng) if isinstance(g, WeierG) else g.desc(Pold)) + g.mods(Pold, rng)
+                lines = [T + "set_mulgen %s %s" % (dold, g.sc(k, rng))]
+                cl.add("set_mulgen-dirty-receiver")
+            else:
+                lines = [T + "mulgen " + g.sc(k, rng)]
             exp = ["OK " + g.enc(R)]
             cl.add("mulgen")
             if g.is_neutral(R): cl.add("result-neutral")
@@ -180,7 +187,7 @@ def main(argv):
         req = []
         for c in curves:
             req += [c + ":table-entry", c + ":digit=16", c + ":window=0", c + ":scalar:extreme", c + ":scalar:digit-string", c + ":mulgen", c + ":mul",
-                    c + ":point-neutral", c + ":mul-vs-mulgen"]
+                    c + ":point-neutral", c + ":mul-vs-mulgen", c + ":set_mulgen-dirty-receiver"]
         req += ["jq255e:scalar:endo-limb-rounding-boundary", "gls254:scalar:endo-limb-rounding-boundary", "jq255e:scalar:endo-extreme-halves", "secp256k1:scalar:endo-extreme-halves", "gls254:scalar:endo-extreme-halves",
                 "ed25519:point-not-in-subgroup", "ed448:point-not-in-subgroup"]
         rep.require(*req)
